@@ -1,6 +1,6 @@
 """
 C01 — saving a dataset and loading it back returns the same dataset.
-Correspondence: kapture_to_dir on a generated dataset versus Model/C01.lean rendering the same dataset from tokens: the SET of
+Correspondence (text layer and typed layer): kapture_to_dir on a generated dataset versus Model/C01.lean rendering the same dataset from tokens: the SET of
 files written and every file BYTE FOR BYTE; the rows Base/Csv.parseFile extracts from those bytes versus table_from_file; the
 str.isspace table of the model versus CPython; int() of the timestamp tokens.
 Oracle (implementation only): the reloaded dataset equals the original (same keys, strings, ints, bit-identical floats,
@@ -18,7 +18,7 @@ import mergecommon as mc
 
 ID = 'C01'
 TITLE = 'Saving a dataset and loading it back returns the same dataset'
-GEN = ['Headers', 'FileNames']
+GEN = ['Headers', 'FileNames', 'RecordSchemas']
 RULE = ('each case = a generated dataset: every one of the 18 parts present with probability 0.1..0.95 (all subsets reachable), 1..4 '
         'sensors of every kind, identifiers with spaces / unicode / dots, floats drawn from subnormals, 17-digit values, +-0.0, '
         '1e+-300 and random bit patterns, partial poses, 3- and 6-column and empty clouds, negative and 1..19-digit timestamps, every '
@@ -29,10 +29,15 @@ ASSUMPTIONS = [
     'numpy.savetxt("%.10f") / loadtxt: coordinates are compared within 1e-10, file bytes exactly',
     'leaf values are rendered by str(); the model receives those tokens and is responsible for everything else (files, headers, '
     'padding, order, flattening)',
-    'typed value conversion of rows into records (float(), int(), dataclass casts) is exercised by the reload oracle, not proved',
+    'the typed layer (values -> tokens -> values: pose_to_list and both pose readers, int(), the casts of RecordArray to the '
+    'field types DECLARED by the record classes, generated from dataclasses.fields) is proved for any float codec satisfying '
+    'Lawful: float(repr(x)) == x, a repr is a non-empty blank-free comma-free token, float(\'\') raises; those three CPython '
+    'facts are hypotheses of the theorems, exercised by the reload oracle (bit-identical floats); the model decodes the text '
+    'the implementation wrote and must find what the implementation loaded',
 ]
 TRUSTED = ['kgen.py dataset generator and describe()']
-PARTIAL = 'the theorems are at the text/row layer (Props/Csv.lean); typed parsing of tokens is covered by correspondence only'
+PARTIAL = ('text/row layer proved outright; typed layer proved modulo the three float-codec laws (CPython facts, hypotheses of the '
+           'theorems); 3-D point coordinates go through %.10f (within 1e-10: oracle only); sensors keep their parameters as strings')
 _cache = {}
 
 
@@ -155,11 +160,51 @@ def insertion_order_desc(case):
     return d
 
 
+TYPED_FILES = {'sensors/trajectories.txt': 'traj', 'sensors/rigs.txt': 'rig', 'sensors/records_gnss.txt': 'generic',
+               'sensors/records_accelerometer.txt': 'generic', 'sensors/records_gyroscope.txt': 'generic',
+               'sensors/records_magnetic.txt': 'generic', 'sensors/records_wifi.txt': 'wifi', 'sensors/records_bluetooth.txt': 'bluetooth',
+               'sensors/records_camera.txt': 'filerec', 'sensors/records_depth.txt': 'filerec', 'sensors/records_lidar.txt': 'filerec',
+               'reconstruction/observations.txt': 'obs'}
+
+
+def typed_view(d):
+    """ the RELOADED dataset (a describe() of the objects kapture_from_dir built) as typed rows per file: integers, the repr token
+    of every float, None for a missing rotation / translation.  What the model must decode from the written text. """
+    def pose(p):
+        return [None if p['r'] is None else [ftok(h) for h in p['r']], None if p['t'] is None else [ftok(h) for h in p['t']]]
+    v = {}
+    if d['trajectories'] is not None:
+        v['sensors/trajectories.txt'] = sorted([['ok', ts, dev] + pose(p) for ts, dev, p in d['trajectories']], key=lambda e: (e[1], e[2]))
+    if d['rigs'] is not None:
+        v['sensors/rigs.txt'] = sorted(['ok', rid, dev] + pose(p) for rid, m in d['rigs'].items() for dev, p in m.items())
+    for part in kgen.RECORD_FILE_KINDS:
+        if d[part] is not None:
+            v[f'sensors/{part}.txt'] = sorted(['ok', ts, dev, p] for ts, dev, p in d[part])
+    if d['records_gnss'] is not None:
+        v['sensors/records_gnss.txt'] = sorted(['ok', ts, dev, [ftok(x), ftok(y), ftok(z), str(utc), ftok(dop)]]
+                                               for ts, dev, (x, y, z, utc, dop) in d['records_gnss'])
+    for part in kgen.RECORD_XYZ_KINDS:
+        if d[part] is not None:
+            v[f'sensors/{part}.txt'] = sorted(['ok', ts, dev, [ftok(x) for x in xyz]] for ts, dev, xyz in d[part])
+    if d['records_wifi'] is not None:
+        v['sensors/records_wifi.txt'] = sorted(['ok', ts, dev, b, [str(f), ftok(r), ssid, str(t0), str(t1)]]
+                                               for ts, dev, sig in d['records_wifi'] for b, (f, r, ssid, t0, t1) in sig.items())
+    if d['records_bluetooth'] is not None:
+        v['sensors/records_bluetooth.txt'] = sorted(['ok', ts, dev, b, [ftok(r), name]]
+                                                    for ts, dev, sig in d['records_bluetooth'] for b, (r, name) in sig.items())
+    if d['observations'] is not None:
+        groups = {}
+        for idx, kt, img, fid in d['observations']:
+            groups.setdefault((idx, kt), []).append([img, fid])
+        v['reconstruction/observations.txt'] = sorted(['ok', idx, kt, sorted(pairs)] for (idx, kt), pairs in groups.items())
+    return v
+
+
 def run_impl(case):
     r = run_real(case)
     if r['error']:
         return {'error': r['error']}
-    return {'files': r['files'], 'rows': r['rows']}
+    return {'files': r['files'], 'rows': r['rows'], 'typed': typed_view(r['reloaded'])}
 
 
 def to_model(case):
@@ -168,6 +213,10 @@ def to_model(case):
     if not r.get('error'):
         for p in sorted(r['rows']):
             reqs.append({'op': 'parse', 'text': r['files'][p]})
+        # the typed layer: the model decodes the text the implementation WROTE; compared with what the implementation LOADED
+        for p in sorted(r['files']):
+            if p in TYPED_FILES:
+                reqs.append({'op': 'decode', 'kind': TYPED_FILES[p], 'file': os.path.basename(p), 'text': r['files'][p], 'path': p})
     return reqs
 
 
@@ -192,6 +241,27 @@ def compare(case, io_, mo):
     for p, m in zip(sorted(io_['rows']), mo[2:]):
         if m.get('rows') != io_['rows'][p]:
             return f'{p}: parsed rows differ: impl {str(io_["rows"][p])[:200]} model {str(m.get("rows"))[:200]}'
+    typed_paths = [p for p in sorted(io_['files']) if p in TYPED_FILES]
+    for p, m in zip(typed_paths, mo[2 + len(io_['rows']):]):
+        dec = m.get('decoded')
+        if dec is None:
+            return f'{p}: model decode error {m}'
+        if p.endswith('observations.txt'):
+            dec = [[e[0], e[1], e[2], sorted(e[3])] if e[0] == 'ok' else e for e in dec]
+        key = (lambda e: (e[1], e[2])) if p.endswith('trajectories.txt') else None
+        try:
+            dec = sorted(dec, key=key) if key else sorted(dec)
+        except TypeError:
+            pass
+        want = io_['typed'].get(p)
+        if want is None:
+            if dec:
+                return f'{p}: the model decodes {len(dec)} rows of a part that did not load'
+            continue
+        if dec != want:
+            a = [e for e in want if e not in dec][:2]
+            b = [e for e in dec if e not in want][:2]
+            return f'{p}: typed content: loaded-only {a} decoded-only {b}'
     return None
 
 
